@@ -23,7 +23,7 @@ ASSUMPTIONS = ["python stdlib ipaddress is a correct reference for numeric "
                "outside the must-reject set"]
 REQUIRED = ["ip4", "ip4net", "ip4cidr", "ip4bad", "ip6", "ip6net", "ip6bad",
             "eth", "ethbad", "dpid", "laws", "immut"]
-TIMEOUT = {"quick": 600, "thorough": 3600}
+TIMEOUT = {"quick": 600, "thorough": 7200}
 
 KINDS = ["ip4", "ip4net", "ip4cidr", "ip4bad", "ip6", "ip6net", "ip6bad",
          "eth", "ethbad", "dpid", "laws", "immut", "ip4mask", "ip6mask"]
@@ -34,8 +34,8 @@ def plan (tier, seed):
     return [dict(kinds=[k], n=1) for k in KINDS]
   out = []
   for k in KINDS:
-    for i in range(3):
-      out.append(dict(kinds=[k], n=12, sub=i))
+    for i in range(6):
+      out.append(dict(kinds=[k], n=20, sub=i))
   return out
 
 
